@@ -92,6 +92,31 @@ func c08CompositeFields(p *Pkg, recv, fn, typ string, want map[string]string) bo
 	return ok
 }
 
+// c08IfConds: the conditions of all if statements of recv.fn, in source order
+func c08IfConds(p *Pkg, recv, fn string) []string {
+	fd := p.Func(recv, fn)
+	var out []string
+	ast.Inspect(fd.Body, func(n ast.Node) bool {
+		if is, ok := n.(*ast.IfStmt); ok {
+			out = append(out, c08Print(p, is.Cond))
+		}
+		return true
+	})
+	return out
+}
+
+// c08TopLevelIfInit: recv.fn has, directly in its body (not nested in another
+// statement), an if statement whose init statement is `init`
+func c08TopLevelIfInit(p *Pkg, recv, fn, init string) bool {
+	fd := p.Func(recv, fn)
+	for _, st := range fd.Body.List {
+		if is, ok := st.(*ast.IfStmt); ok && is.Init != nil && c08Print(p, is.Init) == init {
+			return true
+		}
+	}
+	return false
+}
+
 func c08Bool(name string, f func() bool) Fact {
 	return Fact{Name: name, Gen: func() string { return defBool(name, f()) }}
 }
@@ -180,6 +205,21 @@ func init() {
 				return true
 			})
 			return len(save) == 1 && len(apply) == 1 && save[0] < apply[0]
+		}),
+		// a Stream task is refused whenever the state machine is not ready to stream — no other condition attached
+		c08Bool("src_can_stream_guard", func() bool {
+			got := strings.Join(c08IfConds(root(), "node", "canStream"), " ; ")
+			return got == "n.ss.streaming() ; !n.sm.ReadyToStream()"
+		}),
+		c08Bool("src_ready_to_stream", func() bool {
+			p := rsm()
+			return c08HasExpr(p, "StateMachine", "ReadyToStream", "s.GetLastApplied() >= s.onDiskInitIndex") &&
+				c08HasExpr(p, "StateMachine", "ReadyToStream", "!s.OnDiskStateMachine()")
+		}),
+		// concurrentSave: prepare(), then Sync() unconditionally, then doSave
+		c08Bool("src_concurrent_save_syncs", func() bool {
+			return c08TopLevelIfInit(rsm(), "StateMachine", "concurrentSave", "err := s.sync()") &&
+				c08CallOrder(rsm(), "StateMachine", "concurrentSave", "s.prepare", "s.sync", "s.doSave")
 		}),
 		has("src_snapshot_update_not_fast_applied", func() *Pkg { return loadPkg("internal/raft") }, "", "setFastApply", "!pb.IsEmptySnapshot(ud.Snapshot)"),
 	}})
